@@ -542,9 +542,16 @@ def _extreme_by(ctx, lib, nm, b, op):
         ok = ms(a0, Call(INTERP, Each(("elem", vals)), ANY, ANY)) and ms(a1, lambda x: x[0] == "call" and x[1] == INTERP)
         # a1 is the candidate's key: field 1 of the candidate tuple => origin is an interpret result (either seed or previous)
         br = Branches(b, o)
-        be = br.bool_edges(cmpc[0][1]["t"])
+        # the branch taken on the comparison's answer: right after the call, or further on when the comparison sits in a
+        # spliced helper / closure body
+        sw_blk, be = cmpc[0][1]["t"], br.bool_edges(cmpc[0][1]["t"])
+        if be is None:
+            for sb, sw in br.switches():
+                be2 = br.bool_edges(sb)
+                if be2 and any(c[0] == "call" and c[1] == cmpc[0][1]["callee"] and c[3] == cmpc[0][0] for c in br.cond(sb)):
+                    sw_blk, be = sb, be2
         repl = [bb for bb, s in tuples if bb != min(x for x, _ in tuples)]
-        ok = ok and be is not None and len(repl) == 1 and edge_dominates(b, (cmpc[0][1]["t"], be[0]), repl[0])
+        ok = ok and be is not None and len(repl) == 1 and edge_dominates(b, (sw_blk, be[0]), repl[0])
     C(ctx, nm, "replacement", ok, f"the candidate is replaced exactly when key(v).{op}(candidate key) — {'maximum' if op == 'gt' else 'minimum'}, first one wins on ties", b)
     res = [(blk, t) for blk, t in oks if not ms(t, Agg(V + "::Null"))]
     ok = len(res) == 1 and ms(res[0][1], Or_(("elem", vals), ("elem", vals, 0)))
@@ -581,11 +588,30 @@ def _extreme(ctx, lib, nm, b, op):
         for c in t[2][-1]:
             cb = lib.fn(c[1])
             r = Origins(cb, lib).of_local(0) if cb else set()
-            clo_ok = clo_ok and ms(r, Call(f"std::cmp::{op}", Each(("param", 2)), Each(("param", 3))))
+            direct = ms(r, Call(f"std::cmp::{op}", Each(("param", 2)), Each(("param", 3))))
+            # the combining function handed in as a function pointer captured by the closure: resolved at this creation site
+            via_capture = bool(r) and all(
+                x[0] == "call" and x[1] == "<indirect>" and len(x) > 4 and len(x[2]) == 2 and set(x[2][0]) == {("param", 2)} and set(x[2][1]) == {("param", 3)} and
+                len(x[4]) == 1 and next(iter(x[4]))[0] == "field" and next(iter(x[4]))[1] == ("closure_env",) and
+                _capture_is_fn(c, next(iter(x[4]))[2], f"std::cmp::{op}") for x in r)
+            clo_ok = clo_ok and (direct or via_capture)
     C(ctx, nm, "value", ok and clo_ok, f"the first element combined with every other element by std::cmp::{op}(acc, item), in order", b)
     nul = {t for t in allv if m(t, Agg(V + "::Null"))}
     # null exactly for the empty array: behind the emptiness test, or as reduce()'s None
     C(ctx, nm, "empty", bool(nul), "an empty array yields null", b)
+
+
+def _capture_is_fn(closure_term, idx, fn):
+    """Capture number idx of this closure value is the named function (as an item or coerced to a pointer)."""
+    if not idx.isdigit() or int(idx) >= len(closure_term[2]):
+        return False
+    caps = closure_term[2][int(idx)]
+    out = set()
+    for x in caps:
+        while x[0] == "cast":
+            x = x[1]
+        out.add(x)
+    return bool(out) and all(x[0] == "fnitem" and x[1] == fn for x in out)
 
 
 def fn_max(ctx, lib, nm, b):
